@@ -20,7 +20,7 @@ use linkref::{Link, Stop};
 use lvmc_core::enumerate as en;
 use lvmc_core::refmath;
 use lvmc_core::{close, guarded, json, par_sweep, Ctx, Level, Value, Violation};
-use ndarray::Array2;
+use ndarray::{s, Array2, ArrayView2, ShapeBuilder};
 use serde::{Deserialize, Serialize};
 use std::collections::BTreeMap;
 
@@ -35,6 +35,13 @@ struct Case {
     p2: f64,        // poly: degree (integer valued)
     /// run the hierarchical-clustering sweep on the kernels of this case
     cluster: bool,
+    /// also build every kernel from the same records in four other memory layouts, and feed
+    /// `dot` right-hand sides / dense inner matrices in other layouts
+    #[serde(default)]
+    layouts: bool,
+    /// restrict Sparse(k) to these k (None = every 0<k<n); used by the n = 1025 family
+    #[serde(default)]
+    ks: Option<Vec<usize>>,
 }
 
 const KINDS: [(&str, CommonNearestNeighbour); 3] = [
@@ -215,7 +222,7 @@ fn check_views(who: &str, v: &Views, img: &Image, n: usize, tol: &Tol, f32_rhs: 
     }
     for (r, rhs) in rhs_menu(n).iter().enumerate() {
         let rhs: Vec<Vec<f64>> = if f32_rhs { rhs.iter().map(|row| row.iter().map(|&x| x as f32 as f64).collect()).collect() } else { rhs.clone() };
-        let want = refmath::matmul(m, &rhs);
+        let want = if r == 0 { m.clone() } else { refmath::matmul(m, &rhs) }; // rhs #0 is the identity
         let rscale = rhs.iter().flatten().fold(0.0f64, |s, x| s.max(x.abs()));
         let got = &v.dots[r];
         let ok = got.len() == want.len()
@@ -278,10 +285,36 @@ fn run_typed<F: Float>(case: &Case, viols: &mut Vec<Violation>) -> Counters {
     // kernel kinds: dense, and sparse(k) for every 0<k<n with each neighbour index
     let mut kinds: Vec<(KernelType, &str, CommonNearestNeighbour)> = vec![(KernelType::Dense, "-", CommonNearestNeighbour::KdTree)];
     for k in 1..n {
+        if case.ks.as_ref().map_or(false, |ks| !ks.contains(&k)) {
+            continue;
+        }
         for (name, nn) in KINDS.iter() {
             kinds.push((KernelType::Sparse(k), name, nn.clone()));
         }
     }
+    // per point: squared distances to the others, ascending (neighbour ranking by binary search)
+    let sorted_d2: Vec<Vec<f64>> = (0..n)
+        .map(|i| {
+            let mut r: Vec<f64> = (0..n).filter(|&l| l != i).map(|l| d2[i][l]).collect();
+            r.sort_by(|a, b| a.partial_cmp(b).unwrap());
+            r
+        })
+        .collect();
+    // the same records in other memory layouts (filler rows of the strided parent are NaN poison)
+    let x_f: Array2<F> = {
+        let mut a = Array2::zeros((n, d).f());
+        a.assign(&x);
+        a
+    };
+    let x_feature_major: Array2<F> = Array2::from_shape_fn((d, n), |(j, i)| x[(i, j)]);
+    let x_rev: Array2<F> = Array2::from_shape_fn((n, d), |(i, j)| x[(n - 1 - i, j)]);
+    let x_big: Array2<F> = Array2::from_shape_fn((2 * n, d), |(i, j)| if i % 2 == 0 { x[(i / 2, j)] } else { F::nan() });
+    let alt_layouts: Vec<(&str, ArrayView2<F>)> = vec![
+        ("column_major_owned", x_f.view()),
+        ("transposed_view_of_feature_major", x_feature_major.t()),
+        ("reversed_view_of_reversed_copy", x_rev.slice(s![..;-1, ..])),
+        ("every_second_row_of_poisoned_parent", x_big.slice(s![..;2, ..])),
+    ];
     let mut clustered: Vec<Vec<Vec<f64>>> = Vec::new(); // matrices already handed to the clustering sweep
     for (kind, nn_name, nn) in kinds {
         let (kname, kk) = match kind {
@@ -353,7 +386,10 @@ fn run_typed<F: Float>(case: &Case, viols: &mut Vec<Violation>) -> Counters {
             if let Some(i) = (0..n).find(|&i| img.m[i][i] != 1.0) {
                 viols.push(Violation::new("gaussian.diagonal_not_one", format!("K[{},{}] = {:e}", i, i, img.m[i][i]), cj(at.clone())));
             }
-            if kname == "dense" && !bad_value {
+            if kname == "dense" && !bad_value && n > 64 {
+                bump(&mut cnt, "psd_skipped_n_above_64", 1);
+            }
+            if kname == "dense" && !bad_value && n <= 64 {
                 let sym: Vec<Vec<f64>> = (0..n).map(|i| (0..n).map(|j| 0.5 * (img.m[i][j] + img.m[j][i])).collect()).collect();
                 let (vals, _) = refmath::jacobi_eig(&sym);
                 bump(&mut cnt, "psd_checked", 1);
@@ -379,8 +415,9 @@ fn run_typed<F: Float>(case: &Case, viols: &mut Vec<Violation>) -> Counters {
                         upper[i][j] = true;
                         continue;
                     }
-                    let near_or_closer = (0..n).filter(|&l| l != i && l != j && d2[i][l] <= d2[i][j] + rtol).count();
-                    let strictly_closer = (0..n).filter(|&l| l != i && l != j && d2[i][l] < d2[i][j] - rtol).count();
+                    // others l != i, j with d2(i,l) <= d2(i,j) + rtol (j itself is in the sorted row: -1)
+                    let near_or_closer = sorted_d2[i].partition_point(|&v| v <= d2[i][j] + rtol) - 1;
+                    let strictly_closer = sorted_d2[i].partition_point(|&v| v < d2[i][j] - rtol);
                     if near_or_closer < k {
                         lower[i][j] = true;
                         lower[j][i] = true;
@@ -466,6 +503,118 @@ fn run_typed<F: Float>(case: &Case, viols: &mut Vec<Violation>) -> Counters {
         let wrong: Array2<F> = Array2::zeros((n + 1, 1));
         if guarded(|| kernel.dot(&wrong.view())).is_ok() {
             viols.push(Violation::new(format!("{}.dot.incompatible_shape_no_panic", who_o), format!("dot with a {}x1 rhs on a kernel of size {} did not panic (documented panic)", n + 1, n), cj(at.clone())));
+        }
+
+        // ---- memory layouts: same logical records / right-hand side / inner matrix, other strides ----
+        if case.layouts && n > 0 {
+            for (lname, view) in alt_layouts.iter() {
+                bump(&mut cnt, "evals", 1);
+                bump(&mut cnt, "layout_builds", 1);
+                let mut a = at.clone();
+                a.as_object_mut().unwrap().insert("op".into(), json!("build_from_layout"));
+                a.as_object_mut().unwrap().insert("layout".into(), json!(lname));
+                match guarded(|| params.transform(*view)) {
+                    Ok(k2) => {
+                        if k2 != kernel {
+                            let i2 = image(&k2);
+                            let cell = (0..n).flat_map(|i| (0..n).map(move |j| (i, j))).find(|&(i, j)| i2.m.get(i).and_then(|r| r.get(j)).map_or(true, |v| v.to_bits() != img.m[i][j].to_bits() || i2.stored[i][j] != img.stored[i][j]));
+                            viols.push(Violation::new(
+                                format!("{}.build.layout_dependence", kname),
+                                format!("records as {}: kernel differs from the one built from the standard-layout copy of the same records, first differing cell {:?}: {:?} vs {:?}", lname, cell, cell.and_then(|(i, j)| i2.m.get(i).and_then(|r| r.get(j)).cloned()), cell.map(|(i, j)| img.m[i][j])),
+                                cj(a),
+                            ));
+                        }
+                    }
+                    Err(p) => {
+                        // documented: the k-d tree needs every row contiguous in memory
+                        let rows_contiguous = view.row(0).to_slice().is_some();
+                        if nn_name == "kdtree" && kname == "sparse" && !rows_contiguous && p.contains("contiguous") {
+                            bump(&mut cnt, "kdtree_documented_contiguity_panics", 1);
+                        } else {
+                            viols.push(Violation::new(format!("{}.build.layout_panic", kname), format!("records as {}: building the kernel panicked: {}", lname, p), cj(a)));
+                        }
+                    }
+                }
+            }
+            // dot with the n x 2 right-hand side in the same four layouts
+            let rhs = &rhs_menu(n)[1];
+            let r_std: Array2<F> = Array2::from_shape_fn((n, 2), |(i, j)| F::cast(rhs[i][j]));
+            let r_f: Array2<F> = {
+                let mut a = Array2::zeros((n, 2).f());
+                a.assign(&r_std);
+                a
+            };
+            let r_fm: Array2<F> = Array2::from_shape_fn((2, n), |(j, i)| r_std[(i, j)]);
+            let r_rev: Array2<F> = Array2::from_shape_fn((n, 2), |(i, j)| r_std[(n - 1 - i, j)]);
+            let r_big: Array2<F> = Array2::from_shape_fn((2 * n, 2), |(i, j)| if i % 2 == 0 { r_std[(i / 2, j)] } else { F::nan() });
+            let r_alts: Vec<(&str, ArrayView2<F>)> = vec![
+                ("column_major_owned", r_f.view()),
+                ("transposed_view_of_feature_major", r_fm.t()),
+                ("reversed_view_of_reversed_copy", r_rev.slice(s![..;-1, ..])),
+                ("every_second_row_of_poisoned_parent", r_big.slice(s![..;2, ..])),
+            ];
+            if let Ok(base) = guarded(|| kernel.dot(&r_std.view())) {
+                let mscale = img.m.iter().flatten().fold(0.0f64, |s, v| s.max(v.abs())).max(1e-300);
+                let rscale = rhs.iter().flatten().fold(0.0f64, |s, v| s.max(v.abs()));
+                for (lname, rv) in r_alts.iter() {
+                    bump(&mut cnt, "evals", 1);
+                    bump(&mut cnt, "layout_dot_runs", 1);
+                    let mut a = at.clone();
+                    a.as_object_mut().unwrap().insert("op".into(), json!("dot_rhs_layout"));
+                    a.as_object_mut().unwrap().insert("layout".into(), json!(lname));
+                    match guarded(|| kernel.dot(rv)) {
+                        Ok(p) => {
+                            let same = p.dim() == base.dim() && p.iter().zip(base.iter()).all(|(u, v)| close(to_f64(*u), to_f64(*v), tol.rel, tol.rel * mscale * rscale * n as f64));
+                            if !same {
+                                viols.push(Violation::new(format!("{}.dot.layout_dependence", kname), format!("dot with the right-hand side as {} = {:?} but with the standard-layout copy = {:?}", lname, p, base), cj(a)));
+                            }
+                        }
+                        Err(p) => viols.push(Violation::new(format!("{}.dot.layout_panic", kname), format!("dot with the right-hand side as {} panicked: {}", lname, p), cj(a))),
+                    }
+                }
+            }
+            // a dense kernel whose inner matrix is stored column-major (the fields are public)
+            if let KernelInner::Dense(inner) = &kernel.inner {
+                let inner_f: Array2<F> = {
+                    let mut a = Array2::zeros((n, n).f());
+                    a.assign(inner);
+                    a
+                };
+                let kf: Kernel<F> = Kernel { inner: KernelInner::Dense(inner_f), method: kernel.method.clone() };
+                bump(&mut cnt, "evals", 1);
+                bump(&mut cnt, "column_major_inner_checked", 1);
+                match guarded(|| views_of!(kf, F, n)) {
+                    Ok(v) => check_views("dense.column_major_inner", &v, &img, n, &tol, is32, viols, &cj, &at),
+                    Err(p) => viols.push(Violation::new("dense.column_major_inner.panic", format!("a reporting method panicked: {}", p), cj(at.clone()))),
+                }
+                if case.cluster && n >= 2 {
+                    for link in linkref::LINKS {
+                        for crit in 0..2 {
+                            let mk = || {
+                                let hc = HierarchicalCluster::<F>::default().with_method(kodama_method(link));
+                                if crit == 0 {
+                                    hc.num_clusters(2)
+                                } else {
+                                    // a threshold in the middle of the similarity range
+                                    let mid = img.m[0][1].max(1e-6);
+                                    hc.max_distance(F::cast((-mid.ln()).max(0.0) + 0.5))
+                                }
+                            };
+                            let a = guarded(|| mk().transform(kernel.clone()).map(|ds| ds.targets().clone()).ok());
+                            let b = guarded(|| mk().transform(kf.clone()).map(|ds| ds.targets().clone()).ok());
+                            bump(&mut cnt, "evals", 1);
+                            bump(&mut cnt, "layout_clustering_runs", 1);
+                            if a != b {
+                                let mut at2 = at.clone();
+                                at2.as_object_mut().unwrap().insert("op".into(), json!("cluster_column_major_inner"));
+                                at2.as_object_mut().unwrap().insert("linkage".into(), json!(link.name()));
+                                at2.as_object_mut().unwrap().insert("criterion".into(), json!(crit));
+                                viols.push(Violation::new("hierarchical.layout_dependence", format!("{} linkage: labels {:?} on the kernel with a column-major inner matrix, {:?} on the standard-layout kernel", link.name(), b, a), cj(at2)));
+                            }
+                        }
+                    }
+                }
+            }
         }
 
         // documented panic: column index out of bounds (owned kernel and view are separate impls)
@@ -571,6 +720,10 @@ fn cluster_sweep<F: Float>(case: &Case, kernel: &Kernel<F>, img: &Image, at_kern
         bump(cnt, "clustered_kernels_with_floored_similarities", 1);
     }
     bump(cnt, "clustered_kernels", 1);
+    if n > 64 {
+        cluster_light(case, kernel, &dis, &inputs, at_kernel, viols, cnt);
+        return;
+    }
     for link in linkref::LINKS {
         let cj = |extra: Value| -> Value {
             let mut v = serde_json::to_value(case).unwrap();
@@ -767,6 +920,89 @@ fn cluster_sweep<F: Float>(case: &Case, kernel: &Kernel<F>, img: &Image, at_kern
     }
 }
 
+/// Sets too large for the tie-exploring reference: label counts for a few requested cluster
+/// numbers with every linkage, and single linkage thresholds against connected components.
+fn cluster_light<F: Float>(case: &Case, kernel: &Kernel<F>, dis: &[Vec<f64>], inputs: &[f64], at_kernel: &Value, viols: &mut Vec<Violation>, cnt: &mut Counters) {
+    let n = dis.len();
+    let cj = |extra: Value| -> Value {
+        let mut v = serde_json::to_value(case).unwrap();
+        let mut a = at_kernel.clone();
+        for (k, x) in extra.as_object().unwrap() {
+            a.as_object_mut().unwrap().insert(k.clone(), x.clone());
+        }
+        v.as_object_mut().unwrap().insert("at".into(), a);
+        v
+    };
+    let run = |hc: HierarchicalCluster<F>, at: Value, viols: &mut Vec<Violation>| -> Option<Vec<usize>> {
+        match guarded(|| hc.transform(kernel.clone())) {
+            Ok(Ok(ds)) => {
+                let t: Vec<usize> = ds.targets().clone();
+                if t.len() != n {
+                    viols.push(Violation::new("hierarchical.labels.wrong_length", format!("{} labels for {} samples", t.len(), n), cj(at)));
+                    return None;
+                }
+                Some(t)
+            }
+            Ok(Err(e)) => {
+                viols.push(Violation::new("hierarchical.unexpected_error", format!("valid parameters returned Err({})", e), cj(at)));
+                None
+            }
+            Err(p) => {
+                viols.push(Violation::new("hierarchical.panic", format!("transform panicked: {}", p), cj(at)));
+                None
+            }
+        }
+    };
+    for link in linkref::LINKS {
+        for c in [1usize, 2, 17, n - 1, n, n + 1] {
+            bump(cnt, "evals", 1);
+            bump(cnt, "nontrivial", (c > 1 && c < n) as u64);
+            bump(cnt, "light_num_clusters_runs", 1);
+            let at = json!({"criterion": "num_clusters", "c": c, "linkage": link.name()});
+            let hc = HierarchicalCluster::<F>::default().with_method(kodama_method(link)).num_clusters(c);
+            let Some(lab) = run(hc, at.clone(), viols) else { continue };
+            let mut distinct = lab.clone();
+            distinct.sort();
+            distinct.dedup();
+            if distinct.len() != c.min(n) {
+                viols.push(Violation::new("hierarchical.num_clusters.wrong_count", format!("{} linkage, {} requested on {} samples: {} distinct labels, expected {}", link.name(), c, n, distinct.len(), c.min(n)), cj(at)));
+            }
+        }
+    }
+    // single linkage: thresholds exactly at / between a few order statistics of the input dissimilarities
+    let mut sorted: Vec<f64> = inputs.iter().cloned().filter(|v| v.is_finite() && *v >= 0.0).collect();
+    sorted.sort_by(|a, b| a.partial_cmp(b).unwrap());
+    sorted.dedup();
+    let mut ts: Vec<(f64, &'static str)> = Vec::new();
+    if !sorted.is_empty() {
+        for q in [0usize, 1, 2, sorted.len() / 1000, sorted.len() / 100, sorted.len() / 2, sorted.len() - 1] {
+            let q = q.min(sorted.len() - 1);
+            ts.push((sorted[q], "exactly_at"));
+            if q + 1 < sorted.len() {
+                ts.push(((sorted[q] + sorted[q + 1]) / 2.0, "midpoint"));
+            }
+        }
+    }
+    ts.push((0.0, "zero"));
+    for (t, tclass) in ts {
+        let t = to_f64(F::cast(t));
+        bump(cnt, "evals", 1);
+        bump(cnt, "light_single_threshold_runs", 1);
+        let at = json!({"criterion": "distance", "t": t, "t_class": tclass, "linkage": "single"});
+        let hc = HierarchicalCluster::<F>::default().with_method(Method::Single).max_distance(F::cast(t));
+        let Some(lab) = run(hc, at.clone(), viols) else { continue };
+        let canon = linkref::canon_labels_fast(&lab);
+        let comp = linkref::canon_labels_fast(&linkref::components_below(dis, t));
+        let count = canon.iter().max().map_or(0, |m| m + 1);
+        if count > 1 && count < n {
+            bump(cnt, "nontrivial", 1);
+        }
+        if canon != comp {
+            viols.push(Violation::new("hierarchical.threshold.single_not_components", format!("single linkage on {} samples, threshold {} ({}): {} clusters but the graph {{d < t}} has {} connected components (or different ones)", n, t, tclass, count, comp.iter().max().map_or(0, |m| m + 1)), cj(at)));
+        }
+    }
+}
+
 fn replay_value(v: &Value) -> Vec<Violation> {
     let c: Case = match serde_json::from_value(v.clone()) {
         Ok(c) => c,
@@ -808,6 +1044,10 @@ fn main() {
          pattern vs the brute-force k-nearest ranking, size/sum/column/diagonal/to_upper_triangle/dot(3 right-hand sides) vs the stored matrix, documented panics (k in {0,n,n+1}, dot shape, column index). \
          Clustering sweep on every kernel of a case with a distinct matrix (quick: f64 Gaussian, Linear, Polynomial(1,2); thorough: all methods, f64 and f32; large sets: generic Gaussian kernels, dense and k in {1,2,5}): \
          7 linkage methods x NumClusters(1..n+1) x Distance(t) with t exactly at every distinct input / merge dissimilarity, at every midpoint, half the minimum, 0 and above the maximum (non-negative t only). \
+         Memory layouts (subset of the catalogue in quick, nearly all in thorough): every kernel is rebuilt from the same records as column-major owned array, transposed view of a feature-major array, \
+         reversed-row view of a reversed copy and every-second-row view of a NaN-poisoned parent and must equal the standard-layout kernel exactly (the k-d tree's documented contiguity panic is accepted and counted); \
+         dot with the n x 2 right-hand side in the same four layouts; dense kernel with a column-major inner matrix through all reporting methods and the clustering (NumClusters(2), one threshold, 7 linkages). \
+         Size threshold: 1025 generic records (41 x 25 grid): dense Linear / Gaussian(2) f64 in quick; thorough adds f32, Gaussian(0.5), Polynomial(1,1.5), Sparse(k in {1,17}) x 3 indices, layouts; clustering there = label counts for c in {1,2,17,n-1,n,n+1} x 7 linkages and single-linkage thresholds vs connected components; PSD check skipped above n = 64. \
          evaluations = kernels built + clustering runs; non-trivial = kernels on n>=2 records (sparse: exact pattern with at least one absent pair), NumClusters with 1<c<n, thresholds that give 1 < #clusters < n; \
          distinct by construction of the enumerators.",
     );
@@ -890,7 +1130,16 @@ fn main() {
                 } else {
                     f == "f64" && if is_big { big_ok } else { *k == "gaussian" || *k == "linear" || (*k == "poly" && *p1 == 1.0 && *p2 == 2.0) }
                 };
-                cases.push(Case { family: fam.clone(), points: pts.clone(), dim: *d, float: f.into(), kernel: k.to_string(), p1: *p1, p2: *p2, cluster });
+                // memory-layout sweep on a subset of the catalogue (thorough: nearly all of it)
+                let np = pts.len();
+                let layouts = match fam.as_str() {
+                    "lattice3x3_generic" => ctx.thorough() || np <= 4,
+                    "lattice3x3" => np <= ctx.pick(3, 5),
+                    "three_features" | "line_multiset" => ctx.thorough() || np <= 3,
+                    "grid5x5_generic" | "line20_duplicates" | "cube3x3x3_generic" => true,
+                    _ => ctx.thorough() && np > 0,
+                };
+                cases.push(Case { family: fam.clone(), points: pts.clone(), dim: *d, float: f.into(), kernel: k.to_string(), p1: *p1, p2: *p2, cluster, layouts, ks: None });
             }
         }
     }
@@ -909,15 +1158,40 @@ fn main() {
                     // the clustering sweep sees the same Gaussian matrices as on the unshifted lattice;
                     // quick: f64 Gaussian only, thorough: everything
                     let cluster = ctx.thorough() || (*f == "f64" && *k == "gaussian");
-                    cases.push(Case { family: format!("lattice3x3_affine({:e},{})", off, sp), points: p.clone(), dim: 2, float: f.to_string(), kernel: k.to_string(), p1: *p1, p2: *p2, cluster });
+                    cases.push(Case { family: format!("lattice3x3_affine({:e},{})", off, sp), points: p.clone(), dim: 2, float: f.to_string(), kernel: k.to_string(), p1: *p1, p2: *p2, cluster, layouts: ctx.thorough(), ks: None });
                 }
             }
         }
     }
     ctx.extra("affine_offset_point_sets", json!(affine_sets));
+    // size threshold family: 1025 records (one more than 1024) in generic position on a 41 x 25 grid;
+    // quick: dense Linear and Gaussian(2) in f64; thorough: also f32, Gaussian(0.5), Polynomial(1,1.5),
+    // Sparse(k) for k in {1,17} with the three indices, and the layout sweep on the f64 Gaussian(2) case.
+    // Clustering on it is the light sweep (label counts, single-linkage components).
+    let huge: Vec<Vec<f64>> = (0..1025usize).map(|i| vec![(i % 41) as f64 + en::jitter(i, 0), (i / 41) as f64 + en::jitter(i, 1)]).collect();
+    {
+        let hm: Vec<(&str, f64, f64)> = if ctx.thorough() { vec![("linear", 0.0, 0.0), ("gaussian", 2.0, 0.0), ("gaussian", 0.5, 0.0), ("poly", 1.0, 1.5)] } else { vec![("linear", 0.0, 0.0), ("gaussian", 2.0, 0.0)] };
+        let hf: Vec<&str> = if ctx.thorough() { vec!["f64", "f32"] } else { vec!["f64"] };
+        for f in hf {
+            for (k, p1, p2) in &hm {
+                cases.push(Case {
+                    family: "grid41x25_generic_n1025".into(),
+                    points: huge.clone(),
+                    dim: 2,
+                    float: f.into(),
+                    kernel: k.to_string(),
+                    p1: *p1,
+                    p2: *p2,
+                    cluster: true,
+                    layouts: ctx.thorough() && f == "f64" && *k == "gaussian" && *p1 == 2.0,
+                    ks: Some(if ctx.thorough() { vec![1, 17] } else { vec![] }),
+                });
+            }
+        }
+    }
     // heaviest first (clustering sweeps on the largest sets), so the parallel sweep balances
     cases.sort_by_key(|c| std::cmp::Reverse(c.cluster as usize * 1000 + c.points.len()));
-    ctx.extra("point_sets", json!(sets.len() + big.len() + affine_sets));
+    ctx.extra("point_sets", json!(sets.len() + big.len() + affine_sets + 1));
     ctx.extra("large_point_sets", json!(big.iter().map(|b| format!("{} (n={})", b.0, b.1.len())).collect::<Vec<_>>()));
     ctx.extra("cases_enumerated", json!(cases.len()));
 
